@@ -14,8 +14,7 @@ Theorem C08_pending_tracked_map : forall f es p,
 Proof. exact map_tracked. Qed.
 
 Theorem C08_pending_tracked_concat : forall es1 p1 es2 p2,
-  exists p2', map snd p2' = map snd p2 /\
-    view_arr (prim_array_concat es1 p1 es2 p2) = view_arr (VArr es1 p1) ++ view_arr (VArr es2 p2').
+  view_arr (prim_array_concat es1 p1 es2 p2) = view_arr (VArr es1 p1) ++ view_arr (VArr es2 p2).
 Proof. exact concat_tracked. Qed.
 
 Theorem C08_pending_tracked_slice : forall s e es p v,
@@ -154,12 +153,24 @@ Theorem C08_values_broken_refuted :
   exists fs, view_arr (prim_record_values_broken fs) <> map snd (sort_fields (view_rec (VRec fs))).
 Proof. exact values_broken_not_tracked_refuted. Qed.
 
-(* refuted on the faithful model (and on nickel): the blame label after ArrayConcat *)
-Theorem C08_concat_label_refuted :
-  exists (l : lit),
-    force 8 (TObs (OConcatL l) from_caller) = Err EBlame /\
+(* the blame label after ArrayConcat: every element keeps the labels of its own operand (general
+   statement: C08_pending_tracked_concat); refuted for ArrayConcat as it was before 95e63eb *)
+Theorem C08_concat_label_preserved :
+  forall l, l = LArr [ANum 1] (Some (CArr CNum)) ->
+    force 8 (TObs (OConcatL l) from_caller) = Err EBlameNeg /\
     force 8 (TObs OId from_caller) = Err EBlameNeg.
-Proof. exact concat_label_refuted. Qed.
+Proof. exact concat_label_preserved. Qed.
+
+Theorem C08_concat_prefix_label_refuted :
+  exists (l : lit),
+    force 8 (TObs (OConcatL_prefix l) from_caller) = Err EBlame /\
+    force 8 (TObs OId from_caller) = Err EBlameNeg.
+Proof. exact concat_prefix_label_refuted. Qed.
+
+Theorem C08_concat_prefix_not_tracked_refuted :
+  exists es1 p1 es2 p2,
+    view_arr (prim_array_concat_prefix es1 p1 es2 p2) <> view_arr (VArr es1 p1) ++ view_arr (VArr es2 p2).
+Proof. exact concat_prefix_not_tracked_refuted. Qed.
 
 (* the per-observer closed form of the reach predicate (index arithmetic) agrees with [reaches] *)
 Theorem C08_reach_table_correct : forall o zs p b m,
